@@ -32,12 +32,12 @@ CONTRIBS = ("auto_header_unreserved", "font_ignorant_heights", "continuation_hea
 
 def strategy(tier):
     return st.one_of(
-        pgen.pag_recipe(fonts=True, max_rows=60, nrow_range=(1, 50), levels_max=3, subline_with_page_by=False, widths=True, nulls=True),
+        pgen.pag_recipe(fonts=True, max_rows=60, nrow_range=(1, 50), levels_max=3, subline_with_page_by=True, widths=True, nulls=True),
         pgen.pag_recipe(fonts=False, max_rows=40, nrow_range=(2, 14), levels_max=2, nulls=True, widths=True),
         pgen.pag_recipe(fonts=False, max_rows=30, nrow_range=(2, 12), levels_max=1, headers=("explicit", "multi", "none")),
         # tight pages: nothing reserved that is not rendered, so a single uncounted line shows up as an overflow
         pgen.pag_recipe(fonts=False, max_rows=40, nrow_range=(3, 12), levels_max=2, headers=("explicit", "none"), fn_src=False,
-                        nulls=True, dividers=True, max_height=2, strategies=("page_by", "page_by", "plain", "subline")),
+                        nulls=True, dividers=True, max_height=2, strategies=("page_by", "page_by", "plain", "subline"), subline_with_page_by=True),
         pgen.pag_recipe(fonts=True, max_rows=40, nrow_range=(3, 14), levels_max=1, headers=("explicit", "none"), fn_src=False,
                         widths=True, strategies=("plain", "page_by")),
     )
@@ -64,6 +64,74 @@ def _open():
     return {f.sig for f in findings_mod.load(ID)}
 
 
+def overflows(case, pages, open_auto_header: bool):
+    """Per-page budget analysis shared with C04's if-direction.
+    Returns (known, unknown, near_full): known = list of (contribution, info) explained by the open finding,
+    unknown = (residual, signature, info) of the worst unexplained overflow or None."""
+    nrow = case["page"]["nrow"]
+    pb_keys, _ = group_values(case)
+    near_full = False
+    worst = None
+    known = []
+    prev_last_key = None
+    for p in pages:
+        tot = p.total()
+        if tot >= nrow - 1:
+            near_full = True
+        keys = [pb_keys[d.index] if (d.index is not None and d.index < len(pb_keys)) else () for d in p.data]
+        if tot > nrow and len(p.data) >= 2:  # a page with one (or no) data row cannot be made smaller
+            excess = tot - nrow
+            contrib = {}
+            if p.auto_header_rows:
+                contrib["auto_header_unreserved"] = p.auto_header_rows
+            font = sum(max(0, d.weight - d.lib_estimate) for d in p.data)
+            if font:
+                contrib["font_ignorant_heights"] = font
+            if p.headings and p.data and keys and keys[0] and prev_last_key is not None:
+                first_pos = p.data[0].pos
+                top = [h for h in p.headings if h[0] < first_pos]
+                same_prefix = 0
+                for a_, b_ in zip(prev_last_key, keys[0]):
+                    if a_ == b_:
+                        same_prefix += 1
+                    else:
+                        break
+                cont = sum(1 for h in top if 0 <= h[1] < same_prefix)
+                if cont:
+                    contrib["continuation_heading_unbudgeted"] = cont
+            nested = 0
+            pk = prev_last_key
+            for j, k in enumerate(keys):
+                if not k:
+                    continue
+                if j == 0:
+                    if pk is None or pk != k:
+                        shown = sum(1 for h in p.headings if h[0] < p.data[0].pos)
+                        started = sum(1 for v in k if v not in ("-----", None))
+                        cont = contrib.get("continuation_heading_unbudgeted", 0)
+                        nested += max(0, shown - cont - 1) if started else 0
+                else:
+                    nested += max(0, headings_brought(keys[j - 1], k) - 1)
+            if nested:
+                contrib["nested_level_heading_unbudgeted"] = nested
+            explained = contrib.get("auto_header_unreserved", 0) if open_auto_header else 0
+            residual = excess - explained
+            info = (f"page {p.number + 1}: {tot} lines > nrow {nrow} (headers {p.header_rows}, headings {len(p.headings)}, data "
+                    f"{[d.weight for d in p.data]}, subline {len(p.sublineheads)}, fn {p.fn_rows}, src {p.src_rows}); contributions {contrib}")
+            if residual > 0:
+                unexplained = sorted(c for c in contrib if not (c == "auto_header_unreserved" and open_auto_header))
+                sig = "overflow:" + ("+".join(unexplained) if unexplained else "unattributed")
+                if worst is None or residual > worst[0]:
+                    worst = (residual, sig, info)
+            elif explained:
+                known.append(("auto_header_unreserved", info))
+        if p.data:
+            last = p.data[-1]
+            if last.index is not None and last.index < len(pb_keys):
+                prev_last_key = pb_keys[last.index] or None
+    return known, worst, near_full
+
+
 def check(case) -> Result:
     res = Result()
     out = run_recipe(case)
@@ -77,85 +145,13 @@ def check(case) -> Result:
         res.excluded = "malformed_output"
         return res
     pages = analyze(out.doc)
-    nrow = case["page"]["nrow"]
     pb_keys, _ = group_values(case)
-    open_sigs = _open()
-    near_full = False
-    worst = None
-    prev_last_key = None
-    for p in pages:
-        res.checks += 1
-        tot = p.total()
-        if tot >= nrow - 1:
-            near_full = True
-        keys = [pb_keys[d.index] if (d.index is not None and d.index < len(pb_keys)) else () for d in p.data]
-        if tot > nrow and len(p.data) >= 2:  # a page with one (or no) data row cannot be made smaller
-            excess = tot - nrow
-            contrib = {}
-            if p.auto_header_rows:
-                contrib["auto_header_unreserved"] = p.auto_header_rows
-            font = sum(max(0, d.weight - d.lib_estimate) for d in p.data)
-            if font:
-                contrib["font_ignorant_heights"] = font
-            # continuation headings: headings before the first data row whose group continues from the previous page
-            if p.headings and p.data and keys and keys[0] and prev_last_key is not None:
-                first_pos = p.data[0].pos
-                top = [h for h in p.headings if h[0] < first_pos]
-                same_prefix = 0
-                for lvl, (a, b) in enumerate(zip(prev_last_key, keys[0])):
-                    if a == b:
-                        same_prefix += 1
-                    else:
-                        break
-                cont = sum(1 for h in top if 0 <= h[1] < same_prefix)
-                if cont:
-                    contrib["continuation_heading_unbudgeted"] = cont
-            # nested levels: at every group start on this page the paginator budgets ONE heading line
-            nested = 0
-            pk = prev_last_key
-            for j, k in enumerate(keys):
-                if not k:
-                    continue
-                if j == 0:
-                    if pk is None or pk != k:
-                        brought = headings_brought(None if pk is None else pk, k) if pk is not None else sum(1 for v in k if v not in ("-----", None))
-                        # at the top of a page all levels are shown; the group start itself was budgeted with 1
-                        shown = sum(1 for h in p.headings if h[0] < p.data[0].pos)
-                        if pk is None or pk != k:
-                            started = sum(1 for v in k if v not in ("-----", None))
-                            cont = contrib.get("continuation_heading_unbudgeted", 0)
-                            nested += max(0, shown - cont - 1) if started else 0
-                else:
-                    b = headings_brought(keys[j - 1], k)
-                    nested += max(0, b - 1)
-            if nested:
-                contrib["nested_level_heading_unbudgeted"] = nested
-            explained = sum(v for c, v in contrib.items() if f"budget/{c}" in open_sigs)
-            residual = excess - explained
-            info = (f"page {p.number + 1}: {tot} lines > nrow {nrow} (headers {p.header_rows}, headings {len(p.headings)}, data "
-                    f"{[d.weight for d in p.data]}, subline {len(p.sublineheads)}, fn {p.fn_rows}, src {p.src_rows}); contributions {contrib}")
-            if residual > 0:
-                unexplained = sorted(c for c in contrib if f"budget/{c}" not in open_sigs)
-                sig = "overflow:" + ("+".join(unexplained) if unexplained else "unattributed")
-                if worst is None or residual > worst[0]:
-                    worst = (residual, sig, info)
-            else:
-                for c in contrib:
-                    if f"budget/{c}" in open_sigs:
-                        res.fail("budget", c, info)
-        if p.data:
-            last = p.data[-1]
-            if last.index is not None and last.index < len(pb_keys):
-                prev_last_key = pb_keys[last.index] or None
+    res.checks += len(pages)
+    known, worst, near_full = overflows(case, pages, "budget/auto_header_unreserved" in _open())
+    if known:
+        res.fail("budget", "auto_header_unreserved", known[0][1])
     if worst:
         res.fail("budget", worst[1], worst[2])
-    # de-duplicate known hits per case
-    seen, uniq = set(), []
-    for f in res.failures:
-        if f.key not in seen:
-            seen.add(f.key)
-            uniq.append(f)
-    res.failures = uniq
     body = case["sections"][0].get("body", {})
     res.labels = [pages_label(len(pages)), "strategy=" + case.get("strategy", "?"), "fonts" if "text_font" in body else "default_font",
                   "header=" + (case["sections"][0]["headers"] if isinstance(case["sections"][0]["headers"], str) else f"explicit{len(case['sections'][0]['headers'])}"),
